@@ -39,7 +39,7 @@ def _us(n):
 
 _STR_US = {'verif_concretize.0': 20, 'll_strlen.0': 12, 'll_memcmp.0': 12, 'll_memcpy.0': 12, 'll_memmove.0': 12, 'll_memchr.0': 12}
 
-_CAP = 5
+_CAP = 900
 _TUFLAGS = ['-fno-inline']
 _GEN = '_ZL3genP15CPPPreprocessoriij'
 
@@ -59,13 +59,13 @@ def _cond(fam, level, fileset, nlines, nparts, part, decor=0, tiers=('quick', 't
     for f in _REC:
         us[f] = 8
     us['_ZN15CPPPreprocessor9InputFile3getEv.0'] = 2
-    us['vs_istream_bytes.0'] = 4100
+    us['vs_istream_bytes.0'] = 130
     us['_ZN15CPPPreprocessor9InputFile4peekEv.0'] = 2
     menu = ('each line one of 17 kinds: #if 1/0, #ifdef D/U, #ifndef U/D, #elif 1/0, #elifdef D/U, #elifndef U/D, #else, #endif, '
             '#define X, #error e, text marker' if fileset == 'F' else
             'each line one of 7 classes {open true/false, elif true/false, #else, #endif, text}, the spelling of the class '
             '(#if/#ifdef/#ifndef, #elif/#elifdef/#elifndef, marker/#define/#error) chosen by the line number')
-    b = {'defs': defs, 'unwind': 40 if tok else 4100, 'unwindset': us, 'cap': _CAP}
+    b = {'defs': defs, 'unwind': 40 if tok else 130, 'unwindset': us, 'cap': _CAP}
     h = {'id': hid, 'property': 'C09', 'src': 'c09_cond.cxx', 'entry': 'harness_c09_cond',
          'tus': ['src/cppparser/cppPreprocessor.cxx', 'src/cppparser/cppExpressionParser.cxx', 'src/cppparser/cppExpression.cxx',
                  'src/cppparser/cppDeclaration.cxx', 'src/cppparser/cppFile.cxx', 'src/dtoolutil/filename.cxx'],
@@ -74,7 +74,7 @@ def _cond(fam, level, fileset, nlines, nparts, part, decor=0, tiers=('quick', 't
          # --pointer-check makes symbolic execution quadratic in the number of locals that ever went out of scope
          # (every dereference is compared against __CPROVER_dead_object's growing value set): off for these long
          # concrete runs; bounds, overflow and division checks and the "crash:" assertions of base.c stay on
-         'cbmc_flags': ['-D', 'VS_CAP=4096', '--no-pointer-check'], 'object_bits': 16,
+         'cbmc_flags': ['-D', 'VS_CAP=128', '--no-pointer-check', '--max-field-sensitivity-array-size', '128'], 'object_bits': 16,
          'desc': ('process_directive / skip_false_if_block / handle_if*_directive over every well-nested file of %d directive lines; '
                   % nlines + ('line-level reader in place of the character level' if tok else
                      'real character level (get, skip_whitespace, skip_comment, get_preprocessor_command/args) through the '
@@ -93,10 +93,10 @@ def _cond(fam, level, fileset, nlines, nparts, part, decor=0, tiers=('quick', 't
 HARNESSES = (
     [_cond('tok_f3', 't', 'F', 3, 4, p) for p in range(4)] +                      # all kinds, 3 lines: 123 files
     [_cond('tok_r4', 't', 'R', 4, 2, p) for p in range(2)] +                      # 7 classes, 4 lines: 57 files (nesting)
-    [_cond('chr_f2', 'c', 'F', 2, 1, 0, d) for d in range(4)] +                   # real character level, 2 lines: 15 files x 4 spellings
+    [_cond('chr_f2', 'c', 'F', 2, 3, p, d) for d in range(4) for p in range(3)] +                   # real character level, 2 lines: 15 files x 4 spellings
     [_cond('tok_r5', 't', 'R', 5, 8, p, tiers=('thorough',)) for p in range(8)] +        # 265 files
     [_cond('tok_f4', 't', 'F', 4, 32, p, tiers=('thorough',)) for p in range(32)] +      # 1233 files
-    [_cond('chr_r4', 'c', 'R', 4, 2, p, d, tiers=('thorough',)) for d in range(4) for p in range(2)]
+    [_cond('chr_r4', 'c', 'R', 4, 10, p, d, tiers=('thorough',)) for d in range(4) for p in range(10)]
 )
 
 PROPERTY_INFO = {'C09': {'level': 'model_checking',
